@@ -11,6 +11,10 @@ NOTE = ("claims are over the reals within the bounds stated in the evidence file
         "classes and term transformations of /verif/vf (validated each run against the real code on floats), stub contracts listed in the evidence")
 
 CHECKS = {
+    "C05": ("5 C05", "two non-ideal process models (N = 3, thorough 4) and the non-ideal curve with the best-fit search as a recording stub "
+                     "returning symbolic coefficient arrays, 1 and 2 curves, with / without initial permeances, both initial bases: search called "
+                     "once per component on that component's measurements; returned fits = search results or their Arrhenius re-scaling "
+                     "(exp-normal form + EXP congruence); permeances[k] = fit(x_k | x_(k-1), T_k) x step-0 factor"),
     "C06": ("5 C06", "relational: run vs relabelled twin in one exploration.  Activity models for real (NRTL fully symbolic, UNIQUAC per built-in "
                      "mixture; ln gamma compared as rational functions; UNIQUAC asymmetry is a characterised known finding); flux solver with the "
                      "real loop (K = 1, thorough 2; iterates named, on-demand congruence); helpers, one-point curve, metrics and the two ideal "
